@@ -3,15 +3,15 @@ module github.com/edutko/decipher/verifharness
 go 1.20
 
 require (
+	github.com/edutko/cafegopher v0.1.0
 	github.com/edutko/decipher v0.0.0
+	github.com/edutko/jks-go v0.4.1
+	github.com/google/uuid v1.6.0
 	golang.org/x/crypto v0.28.0
 )
 
 require (
-	github.com/edutko/cafegopher v0.1.0 // indirect
-	github.com/edutko/jks-go v0.4.1 // indirect
 	github.com/edutko/putty-go v0.1.0 // indirect
-	github.com/google/uuid v1.6.0 // indirect
 	github.com/jfrog/go-rpm v1.0.1 // indirect
 	golang.org/x/sys v0.26.0 // indirect
 	software.sslmate.com/src/go-pkcs12 v0.5.0 // indirect
